@@ -136,9 +136,33 @@ LostDisc(e) == IF /\ StaleHouse(e) # {} /\ HouseCnt(e) > 0
                   /\ Lost(e) * HouseCnt(e) = Cardinality(StaleHouse(e)) * HouseOut(e)
                THEN {"forced_settlement"} ELSE {"unexplained"}
 
+\* "a deposit or delegation that fails to activate is refunded" -- state based, at a period end: what the pending
+\* transactions of the period detained for a (sender, validator) pair has become stake of that pair, is on its way back in
+\* a new withdraw record of that pair, or was refunded (pairs whose validator is slashed in the same step are skipped: the
+\* penalty also changes the stake)
+Pairs(o)          == { <<o.pend[i].from, o.pend[i].v>> : i \in { j \in DOMAIN o.pend : o.pend[j].x > 0 } }
+DetainedFor(o, q) == SumMap(o.pend, LAMBDA p : IF p.from = q[1] /\ p.v = q[2] THEN p.x ELSE 0)
+StakeOf(o, q)     == IF q[2] \notin ValNames(o) THEN 0
+                     ELSE IF q[1] = q[2] THEN ValOf(o, q[2]).self
+                     ELSE SumMap(ValOf(o, q[2]).dl, LAMBDA d : IF d.d = q[1] THEN d.t ELSE 0)
+NewWqFor(e, q)    == SumMap(e.obs.wq, LAMBDA r : IF r.id \notin WqIds(prev) /\ r.v = q[2]
+                                                     /\ r.d = (IF q[1] = q[2] THEN "-" ELSE q[1]) THEN r.ini ELSE 0)
+PendOf(h)         == { i \in DOMAIN prev.pend : prev.pend[i].h = h }
+RefundFor(e, q)   == SumMap(e.fails, LAMBDA f : IF f.from = q[1] /\ (\E i \in PendOf(f.h) : prev.pend[i].v = q[2]) THEN f.x ELSE 0)
+SlashedNow(e, v)  == \E i \in DOMAIN e.slashes : e.slashes[i].v = v
+Unaccounted(e, q) == DetainedFor(prev, q) - ((StakeOf(e.obs, q) - StakeOf(prev, q)) + NewWqFor(e, q) + RefundFor(e, q))
+CheckedPairs(e)   == IF e.pe THEN { q \in Pairs(prev) : ~SlashedNow(e, q[2]) } ELSE {}
+BadPairs(e)       == { q \in CheckedPairs(e) : Unaccounted(e, q) # 0 }
+\* a staking record of the period holds a negative value (the pending handlers computed one): as observed, the code then
+\* cannot encode the record and skips the take-effect phase of the whole period
+NegRec(o)         == \E i \in DOMAIN o.recs : o.recs[i].fv < 0
+ActDisc(e)        == IF NegRec(prev) THEN {"negative_record"} ELSE {"not_activated"}
+RECURSIVE SumSet(_, _)
+SumSet(S, e)      == IF S = {} THEN 0 ELSE LET q == CHOOSE x \in S : TRUE IN Unaccounted(e, q) + SumSet(S \ {q}, e)
+
 \* ---------------------------------------------------------------- the fold
 Zero == [Total |-> 0, FeesEqualRewards |-> 0, SubsidyFromPool |-> 0, PenaltyArrives |-> 0, ReleasedOnce |-> 0,
-         RewardsNeverLost |-> 0, FailedActivationRefunded |-> 0, Settlements |-> 0, Aborted |-> 0]
+         RewardsNeverLost |-> 0, FailedActivationRefunded |-> 0, Settlements |-> 0, Activations |-> 0, Aborted |-> 0]
 Init == l = 1 /\ have = FALSE /\ prev = 0 /\ bnd = 0 /\ tags = {} /\ tagAmt = 0 /\ viol = {} /\ fired = Zero
 
 Forget == have' = FALSE /\ prev' = 0 /\ bnd' = 0 /\ tags' = {} /\ tagAmt' = 0
@@ -174,13 +198,17 @@ Step ==
                                         !.ReleasedOnce = @ + Cardinality(ReleasedNow(e)),
                                         !.FailedActivationRefunded = @ + Len(e.fails),
                                         !.RewardsNeverLost = @ + 1,
-                                        !.Settlements = @ + (IF Len(e.pay) > 0 THEN 1 ELSE 0)]
+                                        !.Settlements = @ + (IF Len(e.pay) > 0 THEN 1 ELSE 0),
+                                        !.Activations = @ + Cardinality(CheckedPairs(e))]
               /\ viol' = viol \cup { <<ClauseOf(e, a), AcctDisc(e, a), l>> : a \in bad } \cup wq
                               \cup (IF lost # 0 THEN { <<"RewardsNeverLost", LostDisc(e), l>> } ELSE {})
+                              \cup (IF BadPairs(e) # {} THEN { <<"FailedActivationRefunded", ActDisc(e), l>> } ELSE {})
               /\ tags' = tags \cup (IF lost # 0 THEN LostDisc(e) ELSE {})
                               \cup { "credit_mismatch" : a \in bad }
-              \* rewards lost shrink the total; an unexplained credit grows it
-              /\ tagAmt' = tagAmt - lost + SumMap(e.obs.bal, LAMBDA x : Diff(e, x.a))
+                              \cup (IF BadPairs(e) # {} THEN ActDisc(e) ELSE {})
+              \* rewards lost shrink the total; an unexplained credit grows it; detained value that neither became stake nor
+              \* was refunded shrinks it
+              /\ tagAmt' = tagAmt - lost + SumMap(e.obs.bal, LAMBDA x : Diff(e, x.a)) - SumSet(BadPairs(e), e)
         [] e.ev = "Block" /\ have ->
               \* commit step: validators that disappeared while they still held distributable rewards
               LET gone  == { v \in ValNames(prev) \ ValNames(e.obs) : ValOf(prev, v).rd > 0 }
